@@ -706,6 +706,9 @@ class C03Prop(core.Prop):
             if c is None:
                 raise ValueError("setter case: the reset of the description fails")
             return c
+        if s == "decimal":
+            import c03_decimal
+            return c03_decimal.case_from_desc(d)
         if s == "example-modelled":
             return self._ex_wrap(p_examples.case_from_desc(d))
         if s == "sim":
@@ -886,6 +889,8 @@ class C03Prop(core.Prop):
         yield from self._hist(rng, 2000 if quick else 50000)
         yield from self._k4(rng, 60 if quick else 600)
         yield from self._setter(rng, 150 if quick else 1500)
+        import c03_decimal                          # decimal healths / strengths: monitor only (see the module)
+        yield from c03_decimal.cases(rng, 40 if quick else 600)
         yield from self._sims(rng, quick)
         yield from self._examples(rng, quick)
         # the per-call streams of C12 / C11 / C13, re-judged for C03
@@ -923,7 +928,7 @@ class C03Prop(core.Prop):
             return core.Verdict(v.model, (ms[2] == 1) if wf else None, is_[-1] == 1, {"c03Place": is_[-1]})
         if s == "example-modelled":
             return p_examples.interpret(reply, case)
-        if s in ("sim", "setter"):
+        if s in ("sim", "setter", "decimal"):
             winv, weak = reply
             ok = ("judge:none" in case.tags or (weak if "judge:WInvWeak" in case.tags else winv) == 1) and not case.impl
             case.tags.append("WInv:%d" % winv)
